@@ -19,7 +19,7 @@ RULE = ("cases = (format, bytes) for the five formats newick | multi (multi-Newi
         "Nextstrain v2 JSON (div, num_date, country, accession, aa labels). Then: truncation at every kind of position, "
         "splices of two documents (also across formats), byte mutations (replace/insert/delete, NUL, CR, high bytes, "
         "metacharacters), and targeted damage: unterminated comments and blocks, missing values after '=', "
-        "whitespace-only lines, unbalanced parentheses, empty labels, duplicated labels, deep nesting (depth 1000..5000 quick; up to "
+        "whitespace-only lines, unbalanced parentheses, empty labels, duplicated labels, deep nesting (depth 500..5000 quick; up to "
         "20000 thorough, with a relaxed watchdog: indexing is quadratic in the depth). Plus a fixed list of hand-written witnesses (the three crashes found on the unchanged code "
         "among them). A case is non-trivial when the model/implementation comparison ran (modelled formats) or a tree was "
         "delivered (PhyloXML/Nextstrain); distinct = distinct case text")
@@ -420,8 +420,12 @@ def gen(rng, tier):
             out.append(case(fmt, mutate(rng, truncate(rng, d)), "truncated+mutated"))
     # indexing a caterpillar is quadratic in its depth (ReinitIndexes needs ~6 s at depth 20000, the Nexus tree-string
     # concatenation ~20 s): beyond 5000 the watchdog is relaxed; larger depths only exhaust time and memory
-    depths = {"quick": [1000, 3000, 5000], "thorough": [1000, 5000, 10000, 20000], "search": []}[tier]
+    depths = {"quick": [500, 2000, 5000], "thorough": [1000, 5000, 10000, 20000], "search": []}[tier]
+    deeps = []
     for dp in depths:
         for fmt in ["newick", "multi", "nexus", "phyloxml", "nextstrain"]:
-            out.append(case(fmt, deep(rng, fmt, dp), "deep:%d" % dp, dumpmax=12000, timeout_ms=5000 if dp <= 5000 else 180000))
+            deeps.append(case(fmt, deep(rng, fmt, dp), "deep:%d" % dp, dumpmax=12000, timeout_ms=5000 if dp <= 5000 else 180000))
+    # one per chunk of 200 cases (the runner gives each chunk its own worker and judge process)
+    for j, dc in enumerate(deeps):
+        out.insert(min(len(out), j * 200 + 1), dc)
     return out
